@@ -43,6 +43,9 @@ class GenerateRandomAttribute(Operation):
             raise FlamaException("Attribute's name has not been provided.")
         if self._attribute_domain is None:
             raise FlamaException("Attribute's domain has not been provided.")
+        if (not self._attribute_domain.get_element_list()
+                and not self._attribute_domain.get_range_list()):
+            raise FlamaException("Attribute's domain is empty: there is no value to draw.")
         fm_model = cast(FeatureModel, model)
         self.result = generate_random_attribute_values(fm_model,
                                                        self._attribute_name,
